@@ -158,6 +158,45 @@ func streamIsolation(o *Out, r *rand.Rand, n int, thorough bool) {
 	if r1.err != nil || len(r2.trace) != 2 || r2.trace[0] != r2.trace[1] || !strings.Contains(r2.trace[0], "756e7365656e") {
 		o.Fail(Failure{Oracle: "environments-isolated", Key: "env-leak", Input: "secret = 7 in one environment; read in another", Detail: fmt.Sprint(r2.trace, r2.err)})
 	}
+	// hidden shared state: a run that writes through every handle it can obtain (pointers to computed values, elements of
+	// literals, imported package tables, builtin results) must not change what an unrelated run computes afterwards
+	probeSrc := "probe([2 + 4, 1 - 2, 0 * 9, 4000 + 95, len(\"abc\"), [1, 2][0], \"a\" + \"b\", 1.5 * 2, true && true, nil ?? 7, {\"k\": 6}.k, -(-6), 6 % 7, 3 << 1, 13 >> 1, 6 | 0, 7 & 6])"
+	poison := []string{
+		"a = 2 + 4\np = &a\n*p = 100",
+		"a = 1 - 2\np = &a\n*p = 55",
+		"a = 0 * 9\np = &a\n*p = 1",
+		"a = len(\"abc\")\np = &a\n*p = 99",
+		"a = 3 << 1\np = &a\n*p = -6",
+		"a = true && true\np = &a\n*p = false",
+		"a = \"a\" + \"b\"\np = &a\n*p = \"zz\"",
+		"a = 1.5 * 2\np = &a\n*p = 0.5",
+		"a = nil\np = &a\ntry { *p = 1 } catch e { }",
+		"x = [2 + 4][0]\np = &x\n*p = 100",
+		"for i = 0; i < 10; i++ { q = &i; *q = *q + 0 }\nj = 6\nq = &j\n*q = 100",
+		"func f() { return 2 + 4 }\nr = f()\np = &r\n*p = 100",
+	}
+	ps, perr := parser.ParseSrc(probeSrc)
+	if perr != nil {
+		o.Fail(Failure{Oracle: "isolation-template", Key: "isolation-template-parse", Input: probeSrc, Detail: perr.Error()})
+		return
+	}
+	baseline := runVM(ps, -1, time.Second)
+	for _, psrc := range poison {
+		st, err := parser.ParseSrc(psrc)
+		if err != nil {
+			o.Fail(Failure{Oracle: "isolation-template", Key: "isolation-template-parse", Input: psrc, Detail: err.Error()})
+			continue
+		}
+		_ = runVM(st, -1, time.Second)
+		after := runVM(ps, -1, time.Second)
+		o.Sum.Evaluations++
+		o.Sum.Hist["poison-attempt"]++
+		if after.line != baseline.line {
+			o.Fail(Failure{Oracle: "runs-isolated", Key: "hidden-shared-state", Input: psrc + "\n--- then, in a fresh environment ---\n" + probeSrc,
+				Detail: fmt.Sprintf("before the first script ran the probe gave %s; afterwards %s", baseline.line, after.line)})
+			break
+		}
+	}
 }
 
 func firstDiff(a, b string) string {
